@@ -28,7 +28,7 @@ def to_smt2(pc, goal, observables=None, expect_sat=False):
     return s.to_smt2()
 
 
-def _pyval(v):
+def _pyval(v, m=None, depth=0):
     try:
         if z3.is_int_value(v):
             return v.as_long()
@@ -38,12 +38,59 @@ def _pyval(v):
             return False
         if z3.is_string_value(v):
             s = v.as_string()
-            return re.sub(r'\\u\{([0-9a-fA-F]+)\}', lambda m: chr(int(m.group(1), 16)), s)
+            return re.sub(r'\\u\{([0-9a-fA-F]+)\}', lambda mm: chr(int(mm.group(1), 16)), s)
         if z3.is_rational_value(v):
             return float(v.as_fraction())
-    except Exception:
-        pass
+        if depth > 8:
+            return {'sexpr': v.sexpr()[:500]}
+        if z3.is_app(v):
+            k = v.decl().kind()
+            name = v.decl().name()
+            if v.sort().kind() == z3.Z3_DATATYPE_SORT:
+                if name == 'none':
+                    return None
+                if name == 'some':
+                    return _pyval(v.arg(0), m, depth + 1)
+                if name == 'mk':
+                    return {'tuple': [_pyval(v.arg(i), m, depth + 1) for i in range(v.num_args())]}
+            if k == z3.Z3_OP_SEQ_EMPTY:
+                return []
+            if k == z3.Z3_OP_SEQ_UNIT:
+                return [_pyval(v.arg(0), m, depth + 1)]
+            if k == z3.Z3_OP_SEQ_CONCAT:
+                out = []
+                for i in range(v.num_args()):
+                    x = _pyval(v.arg(i), m, depth + 1)
+                    if not isinstance(x, list):
+                        return {'sexpr': v.sexpr()[:500]}
+                    out.extend(x)
+                return out
+            if k == z3.Z3_OP_CONST_ARRAY:
+                return {'__default__': _pyval(v.arg(0), m, depth + 1)}
+            if k == z3.Z3_OP_STORE:
+                base = _pyval(v.arg(0), m, depth + 1)
+                if isinstance(base, dict) and 'sexpr' not in base:
+                    kk = _pyval(v.arg(1), m, depth + 1)
+                    base[_key(kk)] = _pyval(v.arg(2), m, depth + 1)
+                    return base
+            if k == z3.Z3_OP_AS_ARRAY and m is not None:
+                fi = m[z3.get_as_array_func(v)]
+                out = {'__default__': _pyval(fi.else_value(), m, depth + 1)}
+                for i in range(fi.num_entries()):
+                    e = fi.entry(i)
+                    out[_key(_pyval(e.arg_value(0), m, depth + 1))] = _pyval(e.value(), m, depth + 1)
+                return out
+        if z3.is_quantifier(v) and v.is_lambda():
+            return {'lambda': v.sexpr()[:500]}
+    except Exception as e:
+        return {'sexpr': str(v)[:500], 'err': str(e)}
     return {'sexpr': v.sexpr()[:2000]}
+
+
+def _key(k):
+    if isinstance(k, (int, str, bool)):
+        return k if isinstance(k, str) else repr(k)
+    return repr(k)
 
 
 def _run_z3py(smt2, timeout_ms):
@@ -59,7 +106,7 @@ def _run_z3py(smt2, timeout_ms):
         model = {}
         for d in m.decls():
             if d.arity() == 0:
-                model[d.name()] = _pyval(m[d])
+                model[d.name()] = _pyval(m[d], m)
     return str(r), model, dt
 
 
